@@ -439,11 +439,11 @@ def gen(rng, tier):
         yield read_case(rng)
     for _ in range(300 * n):
         yield nfr_case(rng)
-    for _ in range(4000 * n):
+    for _ in range(3000 * n):
         c = vfy_case(rng)
         if c:
             yield c
-    yield from sweep_cases(rng, 210 if quick else 5000)
+    yield from sweep_cases(rng, 150 if quick else 5000)
 
 
 def exp_of(case):
@@ -513,7 +513,7 @@ CHECK = {
                  "wrong type/class/TTL; new_from_read; verify_* on messages signed by the Python signer with MACs truncated "
                  "to allowed/disallowed lengths, now at time-signed +-fudge +-{0,1}, wrong key/prior MAC/mode, flipped "
                  "octets; and a sweep: single-octet corruption at EVERY position of the message, the key name and the "
-                 "RDATA of ~200 signed messages (all three modes) - every covered octet must be rejected (T:cov), "
+                 "RDATA of ~150 signed messages (all three modes) - every covered octet must be rejected (T:cov), "
                  "every uncovered one (message ID, letter case, fields outside the subsequent-message digest) must "
                  "still verify (T:unc). The implementation's answer must equal the model's (HMAC table from hashlib) "
                  "and the prediction of checks/tsig_py.py; non-trivial = a signature was produced, a verification "
